@@ -8,6 +8,7 @@
 (*   "pattern"   every pattern (series of <= 2 expressions of depth <= D-1,*)
 (*               single expressions of depth <= D, short series of         *)
 (*               predicates) x every hop sequence of length <= WLEN        *)
+(*   "hops"      every interface list of length <= ILEN: hop extraction    *)
 (*   "tokens"    every token string of length <= TLEN over predicates,     *)
 (*               | ? + * ( ) : does it parse, and what does it mean        *)
 (* For every item: the code-shaped evaluation (AclCode, PatCode) equals    *)
@@ -19,7 +20,7 @@
 (***************************************************************************)
 EXTENDS PathPolicy, Json, SequencesExt
 
-CONSTANTS KIND, DEPTH, WLEN, NACL, TLEN, NPRED, GEN, CHUNK
+CONSTANTS KIND, DEPTH, WLEN, NACL, TLEN, NPRED, ILEN, GEN, CHUNK
 
 VARIABLES c, k
 
@@ -63,7 +64,12 @@ PredShapes == {Pred(i, a, "any", 0, 0) : i \in 0..2, a \in {NONE, 0, 10, 20}}
               \cup {Pred(i, a, "both", x, y) : i \in 0..2, a \in {NONE, 0, 10, 20}, x \in 0..2, y \in 0..2}
 HopDomain == SetToSeq({Hop(i, a, x, y) : i \in 1..2, a \in {10, 20}, x \in 0..2, y \in 0..2})
 
+\* interface lists of path metadata: every list of length <= ILEN over 2 ASes x 2 interface ids
+IfAlpha == {[ia |-> [isd |-> 1, as |-> a], id |-> i] : a \in {10, 20}, i \in 1..2}
+IfLists == UNION {[1..n -> IfAlpha] : n \in 0..ILEN}
+
 Items == CASE KIND = "pattern"  -> SetToSeq(Patterns)
+           [] KIND = "hops"     -> SetToSeq(IfLists)
            [] KIND = "acl"      -> SetToSeq(Acls)
            [] KIND = "tokens"   -> SetToSeq(TokStrings)
            [] KIND = "hopmatch" -> SetToSeq(PredShapes)
@@ -100,6 +106,7 @@ Emit == (GEN /\ k > 0) =>
     [] KIND = "tokens"   -> LET r == PatParse(Items[k]) IN
                             PrintT(<<"CASE", ToJson([kind |-> KIND, ts |-> Items[k], ok |-> r.ok,
                                       v |-> IF r.ok THEN [x \in 1..Len(W) |-> Bit(PatAllows(r.pat, W[x]))] ELSE <<>>])>>)
+    [] KIND = "hops"     -> PrintT(<<"CASE", ToJson([kind |-> KIND, ifs |-> Items[k], ok |-> HopsOf(Items[k]).ok, hops |-> HopsOf(Items[k]).hops])>>)
     [] KIND = "hopmatch" -> PrintT(<<"CASE", ToJson([kind |-> KIND, p |-> Items[k],
                                       v |-> [x \in 1..Len(HopDomain) |-> Bit(HopMatches(Items[k], HopDomain[x]))]])>>)
 
